@@ -12,7 +12,7 @@ from props import c01, c05
 
 PROP = "C06"
 EPS = 2.0 ** -52
-KAPPA_MAX = 1e8
+KAPPA_MAX = 1e12
 RULE = ("Hypothesis: Gaussians as in C05 (Sigma = B B^T + diag(d) positive definite, p<=7, scaled by 4^s, s in [-20,20], so that "
         "tiny and huge variances occur), targets y and regressor sets S in a drawn order given as int / list / tuple / range / "
         "ndarray, incl. empty S and S containing y. Oracle: exact normal equations in Fractions (b_S = Sigma_SS^-1 Sigma_Sy, "
@@ -65,7 +65,7 @@ def check(case):
     mean, cov = c05.build(case)
     p = len(mean)
     fmean = np.array(X.vto_float(mean))
-    fcov = np.array(X.to_float(cov)).reshape(p, p)
+    fcov = c05.float_cov(case, cov)
     y, Sl = case["y"], list(case["S"])
     ctx = "mean=%s cov=%s y=%d S=%s" % (fmean.tolist(), fcov.tolist(), y, Sl)
     b, c, mse, norms = exact_regression(mean, cov, y, Sl)
@@ -73,7 +73,7 @@ def check(case):
         return ["discard_illconditioned"]
     tol_coef, tol_int, tol_mse = _tols(mean, cov, y, Sl, b, norms)
     dist = must(lib(sempler.NormalDistribution, fmean.copy(), fcov.copy()), "NormalDistribution")
-    lab = ["Spres_" + case.get("Spres", "list")]
+    lab = ["Spres_" + case.get("Spres", "list")] + (["int_cov"] if fcov.dtype != float else [])
     if len(Sl) >= 2:
         lab.append("S_ge2")
         if Sl != sorted(Sl):
@@ -238,6 +238,15 @@ def reg_case(draw):
             "T": list(draw(st.lists(st.integers(0, p - 1), max_size=2, unique=True)))}
     if len(Sl) >= 2:
         case["perm"] = list(draw(st.permutations(list(range(len(Sl))))))
+    if draw(st.integers(0, 3)) == 0:
+        case["cscale"] = [draw(st.sampled_from([0, 0, 1, -1, 9, -9, 17, -17])) for _ in range(p)]
+    if draw(st.integers(0, 3)) == 0:
+        # integer-typed covariance with fractional means
+        case["B"] = [[draw(st.integers(-3, 3)) for _ in row] for row in B]
+        case["d"] = [draw(st.integers(1, 5)) for _ in range(p)]
+        case["scale_exp"] = draw(st.sampled_from([0, 0, 3, 8, 16]))
+        case["cscale"] = None
+        case["int_cov"] = True
     return case
 
 
